@@ -190,7 +190,7 @@ TEXT["C04"] = {
           "Over the concrete field (q proved prime): Fq, Fq2, Fq6, Fq12 are FIELDS with exactly the Spec operations (-1 non-square, 1+u non-cube, v non-square: closed facts + Fermat); the generated inverse equals the Spec inverse and a*inverse(a)=1 for every a != 0, inverse(0)=0, at every level; "
           "frobenius_map a k = a^(q^k) for EVERY k and every element at every level (tables checked by the kernel, lifted by periodicity); conjugate = Frobenius 6; Fq2 norm = a*conj(a) = a^(q+1); a^(q^12-1)=1; "
           "map_to_cyclotomic a = a^((q^6-1)(q^2+1)) for every a != 0 and lands in the cyclotomic subgroup; square_cyclotomic a = a*a IFF a = 0 or a^(q^4-q^2+1) = 1 (so the fast squaring is exact on the whole subgroup and nowhere else).",
- "note": "Remaining correspondence-only items: Fq2 Legendre symbol and square root, byte I/O of tower elements, generic exponentiate (compared with the Spec on boundary+random inputs).  Trusted: Lean kernel (incl. GMP arithmetic for closed facts), cxx2lean translator, harness and judge.",
+ "note": "C04d: write_big_endian / read_big_endian of Fq2, Fq6, Fq12 (exact byte layout, in-place writes, readers on every buffer, round trips, write(read bs) = bs iff every 48-byte chunk is canonical), the generic exponentiate = a^(e mod 2^bits) at every level in both loop variants, Fq2 norm / Legendre (= 0, 1, -1 iff zero, non-zero square, non-square) / square_root (a root iff a is a square; closed form on non-squares) - all models the judge runs against the real code (f2_sqrt now compared exactly, also on non-squares).  Trusted: Lean kernel (incl. GMP arithmetic for closed facts), cxx2lean translator, harness and judge.",
  "technique": "Lean 4 proof (ring identities over the generated model; finite-field theory over Fin q; kernel-evaluated table facts) + differential correspondence",
 }
 TEXT["C05"] = {
@@ -238,7 +238,7 @@ TEXT["C06"] = {
  "technique": "Lean 4 proof (induction over digits and lanes; endomorphism algebra; transfer to Mathlib's elliptic-curve group; closed facts by kernel evaluation) + exact differential correspondence",
 }
 TEXT["C15"]["note"] = ("The marshal AND unmarshal models of the round-trip theorems are the definitions the differential judge executes against the real code (Impl/Marshal.lean; the judge's decoders are proved equivalent to the validating ones).  "
-                       "Parameters/keys accept any non-zero signature byte and GT bytes are not validated by the library, so for those the unmarshallers accept more than the marshaller's range (a property of the format).  LQ-IBE objects: element readers shared, object level by correspondence only.  Trusted: hand models mirror marshal.cpp (tied by running both).")
+                       "Parameters/keys accept any non-zero signature byte and GT bytes are not validated by the library, so for those the unmarshallers accept more than the marshaller's range (a property of the format).  LQ-IBE objects (C15c): object-level marshal/unmarshal models run by the judge on every lq_m / lq_um / lq_msk line; exact lengths, round trips in both encodings (also for the objects setup/keygen/encrypt produce), injectivity, and 'checked unmarshal accepts exactly the marshaller's range' for params/id/secret key/ciphertext; MasterKey::unmarshal validates nothing (any 32 bytes, scalars >= r included) and the format does not tie sP to P - both stated as theorems.  Trusted: hand models mirror marshal.cpp (tied by running both).")
 TEXT["C10"] = {
  "level": "Lean 4 theorems.  Hash-to-scalar: zp_from_hash / scalar_hash_reduce = (bytes with top bit cleared) mod r by one conditional subtraction, < r.  Samplers: Fq/Fr/Fq2 sampling returns the first masked draw below the modulus, result < modulus, exact stream accounting; the x-adic sampler's digits recombine to the returned y < r.  "
           "Try-and-increment (model of curve.hpp try_and_increment/from_hash, tied to the real code by the judge): FIRST HIT for both groups - the result is x0+n with n least such that x^3+b is a square, y the root selected by the flag, on the curve, never the identity, independent of the fuel (determinism); "
